@@ -614,6 +614,10 @@ class DEVSSimulator(Simulator[TIME], Generic[TIME]):
         carried out. This is INDEPENDENT of the fact whether the time changes 
         or not. The TIME_CHANGED_EVENT is always fired."""
         if not self._eventlist.is_empty():
+            if (self._eventlist.peek_first().time 
+                    > self._replication.end_sim_time):
+                # never execute an event beyond the end of the replication
+                return
             event: SimEventInterface = self._eventlist.pop_first()
             self.fire_timed(event.time, Simulator.TIME_CHANGED_EVENT,
                             event.time)
